@@ -68,7 +68,9 @@ Print Assumptions C04_pipe_progress.
    opposite ends of the deque), the send-while-credit loop has the modelled guard, hands over exactly one
    packet and bumps the global and the per-connection counter once per iteration, enqueue / flush /
    on_packets_completed all pump the queue, the pipe is first-in first-out and every operation re-evaluates
-   check_pump(). An edit that changes any of these facts breaks this obligation whether or not a generated
+   check_pump(); Host.reset() builds each queue from the buffer length / count the controller reported and, when the
+   controller reports no dedicated LE buffers (0/0), makes the LE queue the very same object as the BR/EDR queue (one
+   credit pool, as the controller has one buffer pool). An edit that changes any of these facts breaks this obligation whether or not a generated
    history happens to expose it. *)
 Definition side_eqb (a b : side) : bool :=
   match a, b with SLeft, SLeft | SRight, SRight => true | _, _ => false end.
@@ -77,7 +79,8 @@ Definition shape_ok (s : shape) : bool :=
   Nat.eqb (q_sends_per_iteration s) 1 && Nat.eqb (q_increments_per_iteration s) 2 &&
   q_enqueue_pumps s && q_flush_pumps s && q_completed_pumps s &&
   negb (side_eqb (p_in_side s) (p_out_side s)) &&
-  p_write_checks s && p_pause_checks s && p_resume_checks s && p_pump_checks s.
+  p_write_checks s && p_pause_checks s && p_resume_checks s && p_pump_checks s &&
+  h_queues_from_reported_buffers s && h_le_shares_acl_queue_when_no_le_buffers s.
 Theorem C04_source_shape_is_the_modelled_shape : shape_ok shape_of_source = true.
 Proof. vm_compute. reflexivity. Qed.
 Print Assumptions C04_source_shape_is_the_modelled_shape.
